@@ -81,7 +81,8 @@ def run(ctx):
         "edge and index+1 otherwise, with early exits at 0 and len-1, where the index variable counts iterations; (O4) "
         "every mutation is dominated by the name-match edge and the no-match exit returns False/None; (O5) `enabled` "
         "becomes False only together with wrapping and True only together with unwrapping, both under the state guard "
-        "of the shared recogniser, and getfilter / is_filter_disabled derive from the same flag / recogniser.")
+        "of the shared recogniser, and getfilter / is_filter_disabled derive from the same flag / recogniser; (O6) no explicit "
+        "failure exit (raise, return False/None) of an editing operation is reachable after one of its mutations.")
     ctx.not_decided = "step-by-step equivalence with a reference list model over all operation sequences (behavioural)."
     m = R.m
 
@@ -187,8 +188,115 @@ def run(ctx):
     ev = lp.target.id if isinstance(lp.target, ast.Name) else None
     inserts = [c for c in walk_no_nested(f.node) if isinstance(c, ast.Call) and call_name(c) == "insert" and "filters" in norm(c.func.value)]
     removes = [c for c in walk_no_nested(f.node) if isinstance(c, ast.Call) and call_name(c) == "remove" and "filters" in norm(c.func.value)]
-    if len(inserts) != 2:
+    if not inserts and not removes and _o3_swap(ctx, R, f, cfg, lp, dirp):
+        inserts = []
+    elif len(inserts) != 2:
         raise AnalysisError("O3", "movefilter: expected two insert sites (up / down), found %d" % len(inserts))
+    if inserts:
+        _o3_remove_insert(ctx, R, f, cfg, lp, dirp, ev, inserts, removes)
+    _o4(ctx, R, match_fact)
+    _o6(ctx, R)
+    o5(ctx, R)
+
+
+def _o3_swap(ctx, R, f, cfg, lp, dirp):
+    """movefilter written as an in-place swap of neighbours: filters[i], filters[j] = filters[j], filters[i] with j = i -/+ 1."""
+    swaps = []
+    for st in walk_no_nested(f.node):
+        if isinstance(st, ast.Assign) and len(st.targets) == 1 and isinstance(st.targets[0], ast.Tuple) and isinstance(st.value, ast.Tuple) \
+                and len(st.targets[0].elts) == 2 and len(st.value.elts) == 2 and all(
+                    isinstance(t, ast.Subscript) and "filters" in norm(t.value) for t in st.targets[0].elts):
+            swaps.append(st)
+    if not swaps:
+        return False
+    # index variable = position of the current entry
+    idx = ev = None
+    if isinstance(lp.iter, ast.Call) and call_name(lp.iter) == "enumerate" and isinstance(lp.target, ast.Tuple) and len(lp.target.elts) == 2:
+        idx, ev = [t.id if isinstance(t, ast.Name) else None for t in lp.target.elts]
+    if idx is None:
+        raise AnalysisError("O3", "swap form: index variable not recognised")
+    ctx.holds("O3", "%s is the position of the current entry (enumerate)" % idx)
+
+    def up(pol_want):
+        def pred(fc):
+            e, pol = fact_atom(fc)
+            cp = cmp_parts(e)
+            if cp and cp[1] in ("Eq", "NotEq") and norm(cp[0]) == dirp and const_value(ctx.program, f, cp[2]) == "up":
+                return ((cp[1] == "Eq") == pol) is pol_want
+            return False
+        return pred
+
+    def bound(kind):
+        def pred(fc):
+            e, pol = fact_atom(fc)
+            cp = cmp_parts(e)
+            if not cp or norm(cp[0]) != idx:
+                return False
+            if kind == "first":
+                if const_value(ctx.program, f, cp[2]) == 0:
+                    return (cp[1] == "Eq" and pol is False) or (cp[1] == "NotEq" and pol is True) or (cp[1] == "Gt" and pol is True) \
+                        or (cp[1] == "LtE" and pol is False)
+                return False
+            if norm(cp[2]).replace(" ", "") in ("len(self.filters)-1",):
+                return (cp[1] == "Eq" and pol is False) or (cp[1] == "NotEq" and pol is True) or (cp[1] == "Lt" and pol is True) \
+                    or (cp[1] == "GtE" and pol is False)
+            return False
+        return pred
+
+    def offsets(e):
+        """{(offset, direction polarity or None)} an index expression can denote relative to idx"""
+        if isinstance(e, ast.Name) and e.id == idx:
+            return {(0, None)}
+        if isinstance(e, ast.BinOp) and isinstance(e.left, ast.Name) and e.left.id == idx and isinstance(e.right, ast.Constant) \
+                and isinstance(e.op, (ast.Add, ast.Sub)):
+            return {(e.right.value if isinstance(e.op, ast.Add) else -e.right.value, None)}
+        if isinstance(e, ast.IfExp):
+            c = cmp_parts(e.test)
+            if c and c[1] == "Eq" and norm(c[0]) == dirp and const_value(ctx.program, f, c[2]) == "up":
+                return {(o, True) for o, _ in offsets(e.body)} | {(o, False) for o, _ in offsets(e.orelse)}
+            return set()
+        if isinstance(e, ast.Name):
+            defs = [a.value for a in walk_no_nested(f.node) if isinstance(a, ast.Assign) and any(isinstance(t, ast.Name) and t.id == e.id for t in a.targets)]
+            if len(defs) == 1:
+                return offsets(defs[0])
+        return set()
+    for st in swaps:
+        (t0, t1), (v0, v1) = st.targets[0].elts, st.value.elts
+        same_obj = (norm(v0) == norm(t1)) and (norm(v1) == norm(t0) or (isinstance(v1, ast.Name) and v1.id == ev and offsets(t0.slice) == {(0, None)}))
+        offs = offsets(t1.slice) if offsets(t0.slice) == {(0, None)} else set()
+        if not same_obj or not offs:
+            ctx.violation("O3", f, "move-distance:%s" % norm(st)[:40], "movefilter's swap %s does not exchange the current entry with a neighbour"
+                          % norm(st)[:70], node=st)
+            continue
+        nodes = cfg.nodes_for(st)
+        in_try = [t for t in walk_no_nested(f.node) if isinstance(t, ast.Try) and any(contains(b, st) for b in t.body) and any(
+            h.type is not None and "IndexError" in norm(h.type) for h in t.handlers)]
+        for off, dpol in sorted(offs, key=str):
+            # the offset goes with the direction
+            want = -1 if (dpol is True or (dpol is None and all(cfg.guarded(x, up(True)) for x in nodes))) else 1
+            if off != want:
+                ctx.violation("O3", f, "move-distance:%+d" % off, "movefilter exchanges the entry with the one at index%+d when moving %s" % (
+                    off, "up" if want == -1 else "down"), node=st, witness="moving a filter skips a position or goes the wrong way")
+                continue
+            if off == -1:
+                ok = all(cfg.guarded(x, lambda fc: bound("first")(fc) or (dpol is not None and up(False)(fc))) for x in nodes)
+                if ok:
+                    ctx.holds("O3", "up: swap with index-1, guarded by `not at the first position`")
+                else:
+                    ctx.violation("O3", f, "boundary:first", "a filter at the first position can be moved up: index -1 designates the LAST entry "
+                                  "(no IndexError for a negative index)", node=st,
+                                  witness="movefilter(first, 'up') exchanges the first and the last filter and returns True")
+            else:
+                ok = bool(in_try) or all(cfg.guarded(x, lambda fc: bound("last")(fc) or (dpol is not None and up(True)(fc))) for x in nodes)
+                if ok:
+                    ctx.holds("O3", "down: swap with index+1, %s" % ("out-of-range caught (IndexError)" if in_try else "guarded by `not at the last position`"))
+                else:
+                    ctx.violation("O3", f, "boundary:last", "a filter at the last position can be moved down", node=st,
+                                  witness="movefilter(last, 'down') raises IndexError")
+    return True
+
+
+def _o3_remove_insert(ctx, R, f, cfg, lp, dirp, ev, inserts, removes):
     # the index variable counts iterations
     idx = None
     for c in inserts:
@@ -260,6 +368,36 @@ def run(ctx):
             ctx.violation("O3", f, "boundary:%s" % kind, "a filter at the %s position can be moved %s" % (kind, "up" if is_up else "down"), node=c,
                           witness="moving the first filter up inserts it at index -1 (second to last)")
 
+
+def _o6(ctx, R):
+    """A refused operation changes nothing: no explicit failure exit (raise, return False/None) lies downstream of a mutation."""
+    ctx.rule("O6", "refused operations change nothing: no raise / `return False` is reachable after a mutation of the set")
+    n = 0
+    for op in OPS:
+        f = R.m[op]
+        cfg = ctx.cfg(f)
+        muts, ev = filters_mutations(f)
+        fails = [x for x in walk_no_nested(f.node) if isinstance(x, ast.Raise) or (
+            isinstance(x, ast.Return) and (x.value is None or const_value(ctx.program, f, x.value) in (False, None)))]
+        bad = None
+        for kind, st, node in muts:
+            after = cfg.reach([m_ for x in cfg.nodes_for(st) for m_, _ in x.succ], exc=False) if cfg.nodes_for(st) else set()
+            for x in fails:
+                if any(y in after for y in cfg.nodes_for(x)):
+                    bad = bad or (st, x)
+        n += len(fails)
+        if bad:
+            st, x = bad
+            ctx.violation("O6", f, "mutation-before-refusal", "%s executes `%s` and can then still refuse the operation (`%s`): the refused call "
+                          "has modified the set" % (f.qualname, norm(st)[:50], norm(x)[:40]), node=st,
+                          witness="an update refused with FilterAlreadyExists has already replaced the filter's content")
+        else:
+            ctx.holds("O6", "%s: %d failure exits, none downstream of its %d mutations" % (f.qualname, len(fails), len(muts)))
+    ctx.need("O6", "explicit failure exits in the editing operations", n, 8)
+
+
+def _o4(ctx, R, match_fact):
+    m = R.m
     # ---- O4 -----------------------------------------------------------------------
     ctx.rule("O4", "every mutation is dominated by the name-match edge; the no-match exit returns False/None")
     n4 = 0
@@ -290,7 +428,6 @@ def run(ctx):
             ctx.violation("O4", f, "unknown-name-result", "%s does not end with a falsy return for an unknown name" % f.qualname, node=last)
     ctx.need("O4", "mutations in the editing operations", n4, 10)
 
-    o5(ctx, R)
 
 
 def o2(ctx, R):
@@ -318,8 +455,15 @@ def o2(ctx, R):
         ok = bool(cw) and bool(rew) and all(all(cfg.guarded(x, was_disabled) for x in cfg.node_containing(c)) for c in rew)
         # ... under the name the entry carries now
         named = [st.value for k, st, _ in muts if k == "entry:name"]
+        name_nodes = [x for k, st, _ in muts if k == "entry:name" for x in cfg.nodes_for(st)]
         for c in rew:
             a0 = c.args[0] if c.args else None
+            if named and isinstance(a0, ast.Name) and isinstance(named[-1], ast.Name) and a0.id == named[-1].id \
+                    and not all(cfg.dominates(name_nodes, x, exc=False) for x in cfg.node_containing(c)):
+                ok = False
+                ctx.violation("O2", f, "rewrap-before-rename", "%s re-disables the filter as %s before the entry has been given that name" % (
+                    f.qualname, norm(a0)), node=c,
+                    witness="a disabled filter that is renamed while being updated loses its `if false` wrapper but keeps enabled=False")
             if named and not (isinstance(a0, ast.Name) and isinstance(named[-1], ast.Name) and a0.id == named[-1].id):
                 ok = False
                 ctx.violation("O2", f, "rewrap-wrong-name", "%s re-disables the filter as %s, but the entry is now called %s" % (
